@@ -10,17 +10,17 @@
        print "@@J {fail...}" lines: these are verdicts about the implementation.
 
    Several traces are concatenated; a row with n = 0 starts a new one (TraceReset). *)
-EXTENDS Manager, Json
+EXTENDS Manager, Json, ManagerWorld
 
 VARIABLE l
 
 Trace == ndJsonDeserialize("manager_trace.ndjson")
 
-\* the default world of the harness (harness/manager/world_test.go), identical to ManagerMC's
-TCaps   == {1, 2, 3}
-TConns  == {1, 2, 3}
-TPieces == [c \in TConns |-> CASE c = 1 -> {1, 2} [] c = 2 -> {2, 3} [] c = 3 -> {1}]
-TPort   == [c \in TConns |-> CASE c = 1 -> 80 [] c = 2 -> 81 [] c = 3 -> 80]
+\* the world the harness ran in (ManagerWorld.tla: by default the one of ManagerMC / harness/manager/world_test.go)
+TCaps   == WCaps
+TConns  == WConns
+TPieces == WPieces
+TPort   == WPort
 TConvNames == {}
 
 S(a) == Range(a)                                   \* JSON array -> set
@@ -130,6 +130,7 @@ StepOK(r) ==
            [] ev.a = "DelEndpoint"   -> IF r.res = "ok" THEN DelEndpoint(ev.what) ELSE Rejected /\ ~DelEndpointOK(ev.what)
            [] ev.a = "SetConfig"     -> r.res = "ok" /\ SetConfig(ev.k = 1)
            [] ev.a = "CrashRestart"  -> (r.res = "ok" /\ "pre" \in DOMAIN r) => RestartOK(r)     \* a kill in the middle of a schedule; the schedule goes on
+           [] ev.a \in {"Sleep", "EndSettle", "SettleExhausted"} -> UNCHANGED vars
            [] ev.a = "ConvReset"     -> ConvReset(ev.convs[1])
            [] ev.a = "ViewConvert"   -> ViewConvert(ev.v, ev.k, ev.convs[1])
            [] OTHER                  -> TRUE            \* events the model does not constrain (yet)
@@ -278,6 +279,8 @@ Props ==
        \* ---- C09
        /\ Chk(FlagsMatchJobs, r, "C09.FlagsMatchJobs")
        /\ Chk(NeverStuck, r, "C09.Stuck")
+       \* the deterministic settle policy (always take the next job step) did not come to rest within the step budget
+       /\ ChkI(r.ev.a # "SettleExhausted", r, "C09.Settles", KindsOf({t \in DOMAIN tags : tags[t].U # {}}))
 
 Done == l = Len(Trace) => PrintT("@@J" \o ToJson([done |-> l]))
 =============================================================================
